@@ -186,6 +186,24 @@ where
     }
 }
 
+/// Impose line ending sanity, join continuation lines and remove comments:
+/// what `split_into_steps` does before splitting, made available for
+/// definitions that consist of a single step
+pub fn remove_comments(definition: &str) -> String {
+    let all = definition
+        .trim()
+        .replace("\r\n", "\n")
+        .replace('\r', "\n")
+        .replace("\n:", "\n");
+    let mut trimmed = String::new();
+    for line in all.lines() {
+        let line: Vec<&str> = line.trim().split('#').collect();
+        trimmed += " ";
+        trimmed += line[0].trim();
+    }
+    trimmed.trim().to_string()
+}
+
 /// Translate a PROJ string into Rust Geodesy format. Since PROJ is syntactically
 /// unrestrictive, we do not try to detect any syntax errors: If the input
 /// is so cursed as to be intranslatable, this will become clear when trying to
